@@ -585,6 +585,34 @@ impl Drv {
                 v["calls"] = json!(calls);
                 Ok(v)
             }
+            // the provided method read_to_end(), appending to a vector that already holds
+            // `prefill` (an assembly buffer); returns what was appended
+            "r_read_to_end" => {
+                let h = req["h"].as_u64().unwrap();
+                let mut acc: Vec<u8> = match req.get("prefill") {
+                    Some(p) if p.is_object() => get_data(p),
+                    _ => Vec::new(),
+                };
+                let pre = acc.len();
+                let r = match self.handles.get_mut(&h) {
+                    Some(Handle::SyncReader(x)) => x.read_to_end(&mut acc),
+                    Some(Handle::SyncLinker(x)) => x.read_to_end(&mut acc),
+                    #[cfg(not(feature = "fl-sync"))]
+                    Some(Handle::Reader(x)) => block_on(x.read_to_end(&mut acc)),
+                    #[cfg(not(feature = "fl-sync"))]
+                    Some(Handle::Linker(x)) => block_on(x.read_to_end(&mut acc)),
+                    _ => return Err(json!({"variant":"Driver","text":"no such reader"})),
+                };
+                match r {
+                    Ok(n) => {
+                        let mut v = bytes_val(&acc[pre..]);
+                        v["n"] = json!(n);
+                        v["prefix_kept"] = json!(pre <= acc.len());
+                        Ok(v)
+                    }
+                    Err(e) => Err(raw_io(&e)),
+                }
+            }
             "r_check" => {
                 let h = req["h"].as_u64().unwrap();
                 match self.handles.remove(&h) {
